@@ -211,6 +211,9 @@ def correspond_guard(ctx):
 
 # ---------------------------------------------------------------------------------------------------- oracle
 
+NEEDS = {'github': ['_update_github'], 'batch': ['_update_batch'], 'all': ['_update_github', '_update_batch', '_heal']}
+
+
 def fault_class(r):
     """class of the schedule for the finding key: was the response to a merge request that GitHub had already performed lost
     (the fake PUT raised at its gate AFTER the effect)?  Otherwise: plain overlapping notifications (failures, if any, hit requests
@@ -242,6 +245,16 @@ def oracle_guard(ctx, budget, check_merges):
                 bad.append(('updating-left-set', {'flags': fl, 'exceptions': sorted({s['exc'] for s in live if s.get('exc')})}))
             if any(fl[1:]) and not any(s.get('exc') for s in live):
                 bad.append(('lost-wakeup', {'flags': fl, 'tasks': live[-1]['tasks']}))
+            if not any(s.get('exc') for s in live):
+                # a notification is SERVED when the sub-operation(s) it asks for are started at or after its arrival
+                for i, s in enumerate(live):
+                    if s['action'][0] != 'spawn':
+                        continue
+                    later = {name for t in live[i:] for kind, name in t.get('subops', []) if kind == 'enter'}
+                    missing = [n for n in NEEDS[s['action'][1]] if n not in later]
+                    if missing:
+                        bad.append(('notification-not-served', {'step': i, 'notification': s['action'][1], 'never_started_afterwards': missing}))
+                        break
         size = sum(1 for s in r['steps'] if not s.get('skipped'))
         for key, obs in bad:
             if key not in best or size < best[key][0]:
@@ -253,6 +266,8 @@ def oracle_guard(ctx, budget, check_merges):
                 if key == 'updating-left-set'
                 else 'every notification task has finished without an exception but a *_changed flag is still set: the notification that set it '
                      'was never served' if key == 'lost-wakeup'
+                else f'a {obs.get("notification")} notification arrived while an update was running; all tasks have finished without an exception but '
+                     f'{obs.get("never_started_afterwards")} was never started after its arrival' if key == 'notification-not-served'
                 else f'notification tasks on the gated fakes: CI merged PR {obs.get("pr")} at {obs.get("sha")} with: {key}')
         fails.append(Failure(key, what, {'prefix': c['prefix'], 'schedule': c['schedule']},
                              'at most one task inside _update_github / _update_batch / _heal / try_to_merge at any time; when all notification tasks '
